@@ -142,7 +142,24 @@ fn check(c: &TestCase, evals: &mut u64) -> Result<Option<(usize, usize, usize)>,
         *evals += 1;
         let (v, _) = verdict(inp, &c.rules);
         match v {
-            Verdict::Ok { rules, .. } => wants.push(expected_out(&rules, e)),
+            Verdict::Ok { rules, .. } => {
+                // the `validate` command itself (its own document loader) assigns the same statuses
+                *evals += 1;
+                let vr = validate_payload(&[c.rules.clone()], &[inp.clone()], &[], &VOpts::structured(Fmt::Json));
+                if let (Ok(0) | Ok(19), Ok(j)) = (&vr.code, serde_json::from_str::<J>(&vr.out)) {
+                    if let Ok(o) = crate::props::c07::obs_from_report(&j[0]) {
+                        let last = |n: &String| crate::drive::strip_file_prefix(n).rsplit('/').next().unwrap_or("").to_string();
+                        let set = |st: St| -> BTreeSet<String> { rules.iter().filter(|(_, s)| *s == st).map(|(n, _)| last(n)).collect() };
+                        if o.pass.as_ref().map_or(false, |p| *p != set(St::Pass)) || o.fail.as_ref().map_or(false, |p| *p != set(St::Fail)) || o.skip.as_ref().map_or(false, |p| *p != set(St::Skip)) {
+                            return Err((
+                                format!("the validate command reports PASS {:?} FAIL {:?} SKIP {:?} on an input for which the library evaluation (the test command's path) gives {:?}", o.pass, o.fail, o.skip, rules.iter().map(|(n, s)| format!("{}={}", n, s.text())).collect::<Vec<_>>()),
+                                "c16:validate-command-differs".into(),
+                            ));
+                        }
+                    }
+                }
+                wants.push(expected_out(&rules, e))
+            }
             Verdict::EvalErr(_) => return Ok(None),
             Verdict::ParseErr(x) => return Err((format!("generator-invalid: {}", x), "c16:generator-invalid".into())),
             Verdict::Panic(p) => return Err((format!("panic {}", p), format!("panic:{}", p.split(' ').next().unwrap_or("")))),
@@ -297,7 +314,7 @@ fn random_case(u: &mut Choices, sz: Size) -> CaseResult {
 
 pub fn run(tier: Tier, seed: u64) -> i32 {
     let spec = EvidenceSpec {
-        rule: "Random core programs (some rule names defined twice) x 1-4 generated inputs x a random expectation (PASS / FAIL / SKIP / none) for every rule name and input, occasionally an expectation for an unknown rule; the spec file is written as JSON or block YAML; `test` is run as -r/-t and as --dir in all four output formats. Ground truth: the per-rule statuses of run_checks(verbose) on (rules, input) - the validate path - and the met-rule of the property statement (non-SKIP expected: some definition has it; SKIP expected: all definitions SKIP). The console text, JSON and YAML must report exactly the met set as passed, the unmet ones with their expected status and the evaluated status list, the rules without expectation as such; JUnit pass/failure marks and counters must give the same counts; exit 0 iff nothing failed else 7. Non-trivial: >=1 met, >=1 unmet, >=1 rule without expectation; distinct by hash of the texts.".into(),
+        rule: "Random core programs (some rule names defined twice) x 1-4 generated inputs x a random expectation (PASS / FAIL / SKIP / none) for every rule name and input, occasionally an expectation for an unknown rule; the spec file is written as JSON or block YAML; `test` is run as -r/-t and as --dir in all four output formats. Ground truth: the per-rule statuses of run_checks(verbose) on (rules, input), which must also be the PASS / FAIL / SKIP sets of `validate --payload --structured` on that input (the validate command with its own document loader), and the met-rule of the property statement (non-SKIP expected: some definition has it; SKIP expected: all definitions SKIP). The console text, JSON and YAML must report exactly the met set as passed, the unmet ones with their expected status and the evaluated status list, the rules without expectation as such; JUnit pass/failure marks and counters must give the same counts; exit 0 iff nothing failed else 7. Non-trivial: >=1 met, >=1 unmet, >=1 rule without expectation; distinct by hash of the texts.".into(),
         assumptions: vec!["cases in which an input raises an evaluation error are discarded (C06 judges error exits)".into()],
     };
     execute("C16", tier, seed, spec, &replay, &|run: &Session| {
